@@ -104,6 +104,7 @@ class LocaleStub:
         me = threading.current_thread().name
         cur = self.cur
         self.nseen += 1
+        self.log.append(('@' + cur, None))
         self.seen.setdefault(me, []).append(cur)
         if self.own.get(me) != cur:
             self.foreign.setdefault(me, []).append((cur, self.own.get(me)))
@@ -171,6 +172,11 @@ def lock_held() -> bool:
     return res[0]
 
 
+def show_log(entries) -> str:
+    """stub log entries in the driver's notation: name+ / name- / @name"""
+    return ','.join(('@' + enc(n[1:])) if ok is None else enc(n) + ('+' if ok else '-') for n, ok in entries)
+
+
 def globals_digest() -> tuple[str, str]:
     ctx = decimal.getcontext()
     d = f'{ctx.prec}/{ctx.rounding}/{ctx.Emin}/{ctx.Emax}/{ctx.capitals}/{ctx.clamp}/' \
@@ -198,10 +204,30 @@ class Ev:
         return Ev(j['coll'], [Ev.from_json(x) for x in j['inner']], j['raises'], j['kind'],
                   j.get('default_collation', False))
 
+    def body(self):
+        """the steps of the `with` block of this template, in order: inner evaluations and 'C' (one
+        strcoll/strxfrm by this manager).  Measured on the library (docs/C19.md): a `(.., ..)` operand
+        is built eagerly, so all inner evaluations (and a raising item) come before the comparisons."""
+        k, n = self.kind, len(self.inner) + 1
+        if k.startswith('other:'):
+            return []
+        if not self.inner and not self.raises:
+            return ['C'] * FLAT_CMPS[k]
+        if k == 'index-of':
+            return self.inner + ([] if self.raises else ['C'] * n)
+        if k == 'contains-token':
+            return self.inner + ['C'] * n
+        if k == 'deep-equal':
+            return self.inner + ([] if self.raises else ['C'])
+        if k == 'for-index-of':
+            return ['C'] + self.inner
+        return list(self.inner)          # distinct-values, for-distinct-values, max, min: no comparison
+
     def tokens(self):
-        out = ['E', enc_coll(self.coll), '7' if self.raises else '-', str(len(self.inner))]
-        for e in self.inner:
-            out += e.tokens()
+        body = self.body()
+        out = ['E', enc_coll(self.coll), '7' if self.raises else '-', str(len(body))]
+        for e in body:
+            out += ['C'] if e == 'C' else e.tokens()
         return out
 
     def colls(self):
@@ -234,6 +260,11 @@ OTHER_EXPRS = [
     "xs:integer('12') idiv 5",
     "string-length(codepoints-to-string((97, 8364, 128512)))",
 ]
+
+# number of strcoll/strxfrm calls of the flat templates (operand `$s` = ('b','a','b'), token 'zz')
+FLAT_CMPS = {'compare': 1, 'contains': 2, 'starts-with': 2, 'ends-with': 2, 'substring-before': 2,
+             'substring-after': 2, 'index-of': 3, 'distinct-values': 0, 'max': 0, 'min': 0, 'deep-equal': 3,
+             'contains-token': 3, 'collation-key': 1, 'for-index-of': 1, 'for-distinct-values': 0}
 
 FLAT_KINDS = ['compare', 'contains', 'starts-with', 'ends-with', 'substring-before',
               'substring-after', 'index-of', 'distinct-values', 'max', 'min', 'deep-equal',
@@ -466,7 +497,7 @@ def run_history_impl(world: World, evs: list[Ev], yield_prob=0.0):
             out, expr = run_tree(ev)
             exprs.append(expr)
             envd, decd = globals_digest()
-            log = ','.join(enc(n) + ('+' if ok else '-') for n, ok in stub.log[n0:])
+            log = show_log(stub.log[n0:])
             obs.append(f'{out}#{int(lock_held())}#{enc(stub.cur)}#{decd}#{envd}#{log}')
             if out.startswith('HANG'):
                 break
@@ -593,7 +624,7 @@ CORPUS_HIST = [
     (World('en_US', ['de_DE.UTF-8']), [Ev('de_DE.UTF-8'), Ev('de_DE.UTF-8')]),
     (World('mylocale', ['de_DE.UTF-8']), [Ev('de_DE.UTF-8'), Ev(UCA + '?lang=de')]),
     (World('de_DE@euro', ['en_US.UTF-8']), [Ev(UCA + '?lang=zz'), Ev('zz'), Ev(UCA + '?lang=zz;fallback=no')]),
-    # F19b: nested locale scopes
+    # F19b (fixed by fix-c19-2): nested locale scopes
     (World('C', ['de_DE.UTF-8', 'fr_FR.UTF-8']),
      [Ev('de_DE.UTF-8'), Ev('de_DE.UTF-8', [Ev('fr_FR.UTF-8')], kind='contains-token'), Ev('de_DE.UTF-8')]),
     (World('C', ['de_DE.UTF-8']),
@@ -603,7 +634,7 @@ CORPUS_HIST = [
      [Ev(CODEPOINT, [Ev('de_DE.UTF-8'), Ev('zz_ZZ')], kind='distinct-values'), Ev('de_DE.UTF-8', raises=True, kind='max')]),
     (World('C', ['en_US.UTF-8']),
      [Ev(UCA + '?lang=xx', [Ev(HTML_ASCII, raises=True, kind='index-of')], kind='deep-equal'), Ev(None), Ev('')]),
-    # F19b through a suspended generator: for $i in index-of(.., C1) return compare(.., C2)
+    # F19b (fixed) through a suspended generator: for $i in index-of(.., C1) return compare(.., C2)
     (World('C', ['de_DE.UTF-8', 'fr_FR.UTF-8']),
      [Ev('de_DE.UTF-8', [Ev(CODEPOINT)], kind='for-index-of'), Ev('de_DE.UTF-8', [Ev('fr_FR.UTF-8')], kind='for-index-of')]),
     (World('C', ['de_DE.UTF-8']),
@@ -683,6 +714,7 @@ def compare_histories(run: Run, cases, tag_known=True):
             io, mo = split_obs(impl[k]), split_obs(model[k])
             prefix = dict(case_json(world, evs[:k + 1]), expr=exprs[k])
             st.count('out:' + io['out'])
+            st.count('comparisons-under-locale', io['log'].count('@'))
             st.count('shape:' + ('nested' if ev.inner else 'flat') + ('+raise' if ev.raises else ''))
             st.count('kind:' + ('other' if ev.kind.startswith('other:') else ev.kind))
             if io['log']:
@@ -701,9 +733,6 @@ def compare_histories(run: Run, cases, tag_known=True):
             spec_state = f"T=1 lock={spec['lock']} lc={spec['lc']} dec={spec['dec']} env={spec['env']}"
             if impl_state != spec_state:
                 tags = []
-                if tag_known and mo['out'] == 'HANG' and io['out'] == 'HANG' and impl_state == model_state:
-                    tags = ['F19b']      # trigger: the model itself blocks (nested locale scopes)
-                    st.count('finding:F19b')
                 run.disagree(Disagreement(prefix, impl_state, model_state, spec=spec_state,
                                           what='global-state-after-evaluation',
                                           site='collations.py CollationManager.__enter__/__exit__', tags=tags))
@@ -726,7 +755,7 @@ def compare_histories(run: Run, cases, tag_known=True):
 
 def correspond_histories(run: Run):
     rng = run.rng
-    n = run.scale(700, 7000)
+    n = run.scale(450, 6000)
     cases = list(CORPUS_HIST) + [gen_history(rng, run.quick) for _ in range(n)]
     for i in range(0, len(cases), 400):
         compare_histories(run, cases[i:i + 400])
@@ -738,38 +767,36 @@ def gen_thread_case(rng):
     pool = rng.sample(LOCALES, rng.randint(2, len(LOCALES)))
     avail = [x for x in pool if rng.random() < 0.8]
     world = World(rng.choice(['C', 'C', 'en_US.UTF-8', 'POSIX']), avail)
-    progs = []
-    for _ in range(nthreads):
-        jobs = []
-        for _ in range(rng.randint(1, 4)):
-            r = rng.random()
-            if r < 0.55:
-                coll = rng.choice(pool)
-            elif r < 0.8:
-                coll = UCA + '?lang=' + rng.choice(pool).split('.')[0] + rng.choice(['', ';fallback=no', ';fallback=yes'])
-            elif r < 0.9:
-                coll = CODEPOINT
-            else:
-                coll = 'zz_ZZ.UTF-8'
-            raises = rng.random() < 0.15     # the sequence operand is built eagerly: a raising body
-            jobs.append((coll, 0 if raises else rng.randint(1, 4), raises))   # makes no strcoll call
-            if rng.random() < 0.25:    # an evaluation without collation in between (shared caches)
-                jobs.append((CODEPOINT, 0, False, rng.randrange(len(OTHER_EXPRS))))
-        progs.append(jobs)
+
+    def coll():
+        r = rng.random()
+        if r < 0.55:
+            return rng.choice(pool)
+        if r < 0.8:
+            return UCA + '?lang=' + rng.choice(pool).split('.')[0] + rng.choice(['', ';fallback=no', ';fallback=yes'])
+        if r < 0.9:
+            return CODEPOINT
+        return 'zz_ZZ.UTF-8'
+
+    def job(depth=0):
+        r = rng.random()
+        if depth == 0 and r < 0.15:
+            return Ev(CODEPOINT, kind=f'other:{rng.randrange(len(OTHER_EXPRS))}')
+        raises = rng.random() < 0.12
+        if depth < 2 and r < 0.45:      # nested / generator-held scopes
+            kind = rng.choice(NEST_KINDS)
+            return Ev(coll(), [job(depth + 1) for _ in range(rng.randint(1, 2))], raises, kind)
+        kind = rng.choice(['index-of', 'contains-token', 'deep-equal', 'max']) if raises else \
+            rng.choice(['compare', 'contains', 'index-of', 'deep-equal', 'contains-token', 'starts-with',
+                        'collation-key', 'distinct-values', 'for-index-of'])
+        return Ev(coll(), [], raises, kind)
+    progs = [[fix_markers(job()) for _ in range(rng.randint(1, 4))] for _ in range(nthreads)]
     return world, progs
 
 
-def job_expr(job):
-    if len(job) > 3:
-        return OTHER_EXPRS[job[3]], {'a': 'Query', 'c': job[0]}
-    coll, uses, raises = job
-    seq = ', '.join(["'q'"] * uses + (['$one div $zero'] if raises else []))
-    return f'index-of(({seq}), $a, $c)', {'a': 'q', 'c': coll, 'one': 1, 'zero': 0}
-
-
 def thr_line(world, progs, sched):
-    colls = {j[0] for p in progs for j in p}
-    ps = '|'.join(','.join(f'{enc(j[0])}~{j[1]}~{int(j[2])}' for j in p) for p in progs)
+    colls = {c for p in progs for e in p for c in e.colls()}
+    ps = '|'.join('/'.join(t for e in p for t in e.tokens()) for p in progs)
     return (f'THR init={enc(world.init)} avail={";".join(enc(a) for a in world.avail)} '
             f'norm={norm_table(colls, world)} progs={ps} sched={".".join(map(str, sched))}')
 
@@ -816,15 +843,20 @@ def run_threads_impl(world, progs, concurrent: bool, rng):
                 start.wait()
             outs = []
             for j in progs[i]:
+                b = ExprBuilder()
                 try:
                     # an independent Selector (own parser instance) per evaluation, built in the thread
-                    expr, variables = job_expr(j)
+                    expr = b.expr(j)
                     sel = Selector(expr, parser=XPath31Parser)
-                    v = sel.select(root(), variables=variables)
+                    v = sel.select(root(), variables=b.vars)
                     outs.append('ok:' + repr(v))
                 except BaseException as e:
                     c = canon_exc(e)
-                    outs.append('ERR:BODY' if c == 'ERR:FOAR0001' else c)
+                    if c[4:] in b.markers:
+                        c = 'ERR:BODY'
+                    elif b.ck and c == 'ERR:FOCH0004':
+                        c = 'ERR:FOCH0002'
+                    outs.append(c)
             results[i] = outs
         threads = [threading.Thread(target=work, args=(i,), daemon=True, name=f'c19-thread-{i}')
                    for i in range(len(progs))]
@@ -856,8 +888,8 @@ def compare_threads(run: Run, cases):
     rng = run.rng
     lines = []
     for world, progs in cases:
-        total = sum(j[1] + 10 for p in progs for j in p)
-        sched = [rng.randrange(len(progs)) for _ in range(total)]
+        total = sum(8 * (2 + 4 * e.size()) for p in progs for e in p)
+        sched = [rng.randrange(len(progs)) for _ in range(min(total, 4000))]
         lines.append(thr_line(world, progs, sched))
     answers = run.driver('C19', lines)
     hung_cases = 0
@@ -865,7 +897,7 @@ def compare_threads(run: Run, cases):
         if hung_cases >= 3:
             run.notes.append('thread phase stopped after 3 hung cases')
             break
-        case = {'world': world.to_json(), 'programs': progs}
+        case = {'world': world.to_json(), 'programs': [[e.to_json() for e in p] for p in progs]}
         if not ans.startswith('model='):
             run.disagree(Disagreement(case, 'driver:' + ans, what='protocol'))
             continue
@@ -874,7 +906,7 @@ def compare_threads(run: Run, cases):
         mthr = mthr[0].split('|')
         st.case(case, nontrivial=True)
         st.count(f'threads={len(progs)}')
-        if fs['maxHolders'] not in ('0', '1') or fs['badSeen'] != '0':
+        if fs['maxHolders'] not in ('0', '1') or fs['badSeen'] != '0' or fs['bracketsOK'] != '1':
             run.disagree(Disagreement(case, 'n/a', ans, what='model-schedule-invariant'))
         seq = run_threads_impl(world, progs, False, rng)
         con = run_threads_impl(world, progs, True, rng)
@@ -891,41 +923,28 @@ def compare_threads(run: Run, cases):
                 run.disagree(Disagreement(case, impl_final, f'{mlock}#{mlc}', spec=spec_final,
                                           what=f'threads-{name}-final-state', site='collations.py CollationManager'))
             for i, p in enumerate(progs):
-                # what each strcoll must have seen: the locale its own scope installed
-                want = []
-                for j in p:
-                    coll, uses = j[0], j[1]
-                    m = impl_manager(coll)
-                    if isinstance(m, str) or m[0] is None:
-                        continue
-                    nm = norm_name(m[0], world)
-                    tgt = nm if nm in world.avail else ('en_US.UTF-8' if m[1] and 'en_US.UTF-8' in world.avail else None)
-                    if tgt is not None:
-                        want += [tgt] * uses
-                got = [x for x in seen[i]]
-                # strcoll calls made outside locale scopes (codepoint collation) do not go through locale.strcoll
-                m_done, m_outs, m_nseen = mthr[i].split(';')
+                m_done, m_outs, m_seen = mthr[i].split(';')
+                got = ','.join(enc(x) for x in seen[i])
                 impl_outs = ','.join('ok' if o.startswith('ok:') else o for o in (results[i] or []))
+                st.count('thread-comparisons', len(seen[i]))
                 if impl_outs != m_outs:
                     run.disagree(Disagreement(dict(case, thread=i), impl_outs, m_outs,
                                               what=f'threads-{name}-outcomes'))
                 if foreign[i]:
-                    # property: a body's strcoll ran under a locale its own scope did not install
+                    # property: a comparison ran under a locale that its own thread did not install for it
                     run.disagree(Disagreement(dict(case, thread=i), 'saw/own=' + repr(foreign[i][:4]), None,
                                               spec='saw/own=[]', what=f'threads-{name}-foreign-locale-seen',
                                               site='collations.py _locale_collate_lock'))
-                if got != want:
-                    run.disagree(Disagreement(dict(case, thread=i), 'seen=' + ','.join(got), 'seen=' + ','.join(want),
+                if got != m_seen and not any(e.dflt for j in p for e in walk_evs(j)):
+                    run.disagree(Disagreement(dict(case, thread=i), 'seen=' + got, 'seen=' + m_seen,
                                               what=f'threads-{name}-locale-seen',
-                                              site='collations.py _locale_collate_lock'))
-                elif str(len(got)) != m_nseen:
-                    run.disagree(Disagreement(dict(case, thread=i), f'nseen={len(got)}', f'nseen={m_nseen}',
-                                              what=f'threads-{name}-nseen'))
+                                              site='collations.py CollationManager._locale_call'))
         # concurrent == sequential (values, not only outcome classes)
         if not seq[3] and not con[3] and seq[0] != con[0]:
             run.disagree(Disagreement(case, 'concurrent=' + repr(con[0]), None, spec='sequential=' + repr(seq[0]),
                                       what='threads-concurrent-vs-sequential'))
         st.count('thread-jobs', sum(len(p) for p in progs))
+        st.count('thread-nested-jobs', sum(1 for p in progs for e in p if e.inner))
 
 
 def correspond_threads(run: Run):
@@ -1126,6 +1145,160 @@ def compare_xml(run: Run, cases):
                                           site='etree.py defuse_xml / _xpath30_functions.py ' + fn))
 
 
+
+# ---- the entity gate on the text itself (XmlText.scanProlog) -----------------------------------
+def gen_text_case(rng):
+    """(text, declok, must_reject | None): an XML text built from a structured prolog with textual
+    variation, or one of several ill-formed mutations (then must_reject is None = no spec)"""
+    def ws(p=0.5):
+        return rng.choice([' ', '\n', '  ', '\t', '\r\n']) if rng.random() < p else ''
+    decl_params = []
+    text = ''
+    declok = True
+    if rng.random() < 0.35:
+        decl_params = rng.choice([['version', 'encoding'], ['version'], ['version', 'encoding', 'standalone'],
+                                  ['encoding'], ['version', 'standalone']])
+        vals = {'version': '"1.0"', 'encoding': rng.choice(['"utf-8"', "'UTF-8'"]), 'standalone': '"yes"'}
+        text += '<?xml ' + ' '.join(f'{k}{ws(0.2)}={ws(0.2)}{vals[k]}' for k in decl_params) + ws(0.3) + '?>'
+        declok = 'encoding' in decl_params and all(k in ('version', 'encoding') for k in decl_params)
+    misc_pool = ['<!-- c -->', '<?pi x?>', '<!-- <!DOCTYPE r [<!ENTITY e "x">]> -->', '<?p <!ENTITY e "x"> ?>',
+                 '<!---->', '<?q?>']
+    text += ws()
+    for _ in range(rng.choice([0, 0, 1, 2])):
+        text += rng.choice(misc_pool) + ws()
+    must = False
+    declared = {}
+    if rng.random() < 0.75:
+        ext = rng.random() < 0.15
+        extid = rng.choice([' SYSTEM "file:///nonexistent-c19.dtd"', " PUBLIC '-//c19//x' \"file:///nonexistent-c19.dtd\""]) if ext else ''
+        body = ''
+        pes = []
+        for i in range(rng.choice([0, 1, 1, 2, 3, 4])):
+            r = rng.random()
+            if r < 0.28:
+                n = rng.choice(['e', 'ent', 'x1'])
+                v = rng.choice(['EXPANDED', 'boom', '', ']>X', 'a>b'])
+                q = "'" if rng.random() < 0.3 else '"'
+                body += f'<!ENTITY{ws(1)}{n}{ws(1)}{q}{v}{q}{ws(0.3)}>'
+                declared.setdefault(n, v)
+                must = True
+            elif r < 0.38:
+                body += f'<!ENTITY % pe{i} "<!-- from pe -->">'
+                pes.append(f'pe{i}')
+                must = True
+            elif r < 0.46:
+                body += f'<!ENTITY xe{i} SYSTEM "file:///nonexistent-c19">'
+                must = True
+            elif r < 0.52:
+                body += f'<!NOTATION nt{i} SYSTEM "n"><!ENTITY ue{i} SYSTEM "file:///nonexistent-c19" NDATA nt{i}>'
+                must = True
+            elif r < 0.6 and pes:
+                body += f'%{rng.choice(pes)};'
+            elif r < 0.7:
+                body += '<!ELEMENT r ANY>'
+            elif r < 0.8:
+                body += f'<!ATTLIST r a{i} CDATA {rng.choice(["#IMPLIED", chr(34) + "d>f" + chr(34), chr(39) + "x" + chr(39)])}>'
+            elif r < 0.9:
+                body += rng.choice(['<!-- d -->', '<!-- <!ENTITY z "q"> -->'])
+            else:
+                body += '<?dpi y?>'
+            body += ws(0.3)
+        text += f'<!DOCTYPE{ws(1)}r{extid}{ws(0.3)}' + (f'[{ws(0.3)}{body}]{ws(0.3)}' if body or rng.random() < 0.5 else '') + '>'
+        text += ws()
+        for _ in range(rng.choice([0, 0, 1])):
+            text += rng.choice(misc_pool[:2]) + ws()
+    content = ''
+    for _ in range(rng.randint(0, 3)):
+        r = rng.random()
+        if r < 0.45:
+            content += rng.choice(['t', 'hello', 'a b'])
+        elif r < 0.65:
+            content += rng.choice(['&lt;', '&amp;', '&#65;', '&#x42;', '&gt;'])
+        elif declared and not any(c in v for v in declared.values() for c in '<&'):
+            content += f'&{rng.choice(sorted(declared))};'
+    text += f'<r{ws(0.2)}>{content}</r>' + ws(0.3)
+    # ill-formed mutations: the scanner must stop where expat stops
+    r = rng.random()
+    if r < 0.18:
+        cut = rng.choice(['truncate', 'junk', 'unclosed-comment', 'late-error', 'space-before-decl', 'doctype-twice'])
+        must_spec = None
+        if cut == 'truncate':
+            text = text[:rng.randrange(1, len(text))]
+        elif cut == 'junk':
+            text = rng.choice(['x', '&e;', ']]>']) + text
+        elif cut == 'unclosed-comment':
+            text = text.replace('-->', '--', 1) if '-->' in text else '<!-- ' + text
+        elif cut == 'late-error' and '<!DOCTYPE' in text and ']' in text:
+            i = text.rindex(']')
+            text = text[:i] + '<!BOGUS>' + text[i:]
+        elif cut == 'space-before-decl':
+            text = ' ' + text
+            declok = True if not text.startswith('<?xml ') else declok
+        elif cut == 'doctype-twice':
+            text = text.replace('<r', '<!DOCTYPE r><r', 1)
+        return text, declok, must_spec
+    return text, declok, must
+
+
+SEED_TEXTS = [
+    ('<!DOCTYPE r [<!ENTITY e "EXPANDED">]><r>&e;</r>', True, True),
+    ('<!-- c --><!DOCTYPE r [<!ENTITY e "EXPANDED">]><r>&e;</r>', True, True),
+    ('<?pi x?>\n<!DOCTYPE r [<!ENTITY e "EXPANDED">]><r>&e;</r>', True, True),
+    ('<?xml version="1.0" encoding="utf-8"?><!-- c --><!DOCTYPE r [<!ENTITY e "EXPANDED">]><r>&e;</r>', True, True),
+    ('<?xml version="1.0" encoding="utf-8"?>\n<!DOCTYPE r [<!ENTITY e "EXPANDED">]><r>&e;</r>', True, True),
+    ('\n  <!DOCTYPE r [<!ENTITY e "EXPANDED">]><r>&e;</r>', True, True),
+    ('<!DOCTYPE r [<!ENTITY % p "<!ENTITY e \'EXPANDED\'>"> %p;]><r>&e;</r>', True, True),
+    ('<!DOCTYPE r SYSTEM "file:///nonexistent-c19.dtd"><r>t</r>', True, False),
+    ('<?xml version="1.0" standalone="yes"?><!DOCTYPE r SYSTEM "file:///nonexistent-c19.dtd"><r>t</r>', False, False),
+    ('<!DOCTYPE r [<!ATTLIST r a CDATA "x>y"><!ENTITY e "]>EXPANDED">]><r>&e;</r>', True, True),
+    ('<!-- <!DOCTYPE r [<!ENTITY e "x">]> --><r>t</r>', True, False),
+    ('<!DOCTYPE r [<!ENTITY e "EXPANDED"><!BOGUS>]><r>&e;</r>', True, None),
+    ('<!DOCTYPE r [<!ENTITY e "EXPANDED"]><r>&e;</r>', True, None),
+    ('<!doctype r [<!ENTITY e "EXPANDED">]><r>&e;</r>', True, None),
+    ('<r>&lt;&#65;</r>', True, False),
+]
+
+
+def compare_xml_text(run: Run, cases):
+    from elementpath import XPathContext
+    from elementpath.xpath31 import XPath31Parser
+    from elementpath.exceptions import XMLResourceForbidden
+    st = run.stats
+    lines = [f'XMLT defuse={df} declok={int(ok)} text={enc(t)}' for df, (t, ok, _) in cases]
+    answers = run.driver('C19', lines)
+    for (df, (text, declok, must)), ans in zip(cases, answers):
+        case = {'defuse_xml': df, 'xml': text}
+        if not ans.startswith('xml='):
+            run.disagree(Disagreement(case, 'driver:' + ans, what='protocol'))
+            continue
+        fs = dict(kv.split('=', 1) for kv in ans.split(' '))
+        st.case(case, nontrivial='<!DOCTYPE' in text)
+        st.count('xmltext:defuse=' + df)
+        st.count('xmltext:' + ('ill-formed-mutation' if must is None else 'entity-declared' if must else 'harmless'))
+        if fs['forbidden'] == '1':
+            st.count('xmltext:scan-forbidden')
+        for fn, key in (('parse-xml', 'xml'), ('parse-xml-fragment', 'frag')):
+            try:
+                p = XPath31Parser() if df == 'D' else XPath31Parser(defuse_xml=(df == '1'))
+                ctx = XPathContext(root(), variables={'x': text})
+                r = p.parse(f'string({fn}($x))').evaluate(ctx)
+                impl = 'ok:' + enc(r)
+            except XMLResourceForbidden:
+                impl = 'ERR:forbidden'
+            except BaseException as e:
+                impl = canon_exc(e)
+            model = fs[key]
+            if fn == 'parse-xml-fragment' and impl.startswith('ok:') and fs['parsed'] == '0':
+                continue      # the `<document>` wrapper retry accepts some ill-formed fragments: outside the model
+            spec = None
+            if df == 'D' and must:
+                spec = impl if impl.startswith('ERR:') else 'ERR:(rejected)'
+            st.count(f'xmltext:{fn}:' + (impl[:3] if impl.startswith('ok') else impl))
+            if impl != model or (spec is not None and impl != spec):
+                run.disagree(Disagreement(dict(case, fn=fn), impl, model, spec=spec, what='entity-gate-text',
+                                          site='etree.py defuse_xml / _xpath30_functions.py ' + fn))
+
+
 def correspond_gates(run: Run):
     rng = run.rng
     env_cases = [('D', {'C19_SECRET': 's3cr3t'}, 'C19_SECRET'), ('1', {'C19_SECRET': 's3cr3t'}, 'C19_SECRET')] + \
@@ -1143,6 +1316,9 @@ def correspond_gates(run: Run):
     xml_cases = [(df, d) for d in seed_docs for df in ('D', '0', '1')] + \
                 [(rng.choice(['D', 'D', '0', '1']), gen_doc(rng)) for _ in range(run.scale(300, 3000))]
     compare_xml(run, xml_cases)
+    text_cases = [(df, t) for t in SEED_TEXTS for df in ('D', '0')] + \
+                 [(rng.choice(['D', 'D', 'D', '0', '1']), gen_text_case(rng)) for _ in range(run.scale(400, 6000))]
+    compare_xml_text(run, text_cases)
 
 
 # ----------------------------------------------------------------------------------- search
@@ -1203,8 +1379,259 @@ def shrink(d: Disagreement) -> Disagreement:
 
 
 # -------------------------------------------------------------------------------- translate
+MUT_CALLS = {'dict', 'list', 'set', 'defaultdict', 'OrderedDict', 'Counter', 'deque', 'WeakValueDictionary',
+             'WeakKeyDictionary', 'bytearray'}
+MUT_METHODS = {'append', 'extend', 'insert', 'pop', 'remove', 'clear', 'update', 'add', 'discard', 'setdefault',
+               'popitem', 'appendleft', 'sort', 'reverse'}
+DEC_GLOBAL = {'getcontext', 'setcontext', 'localcontext', 'DefaultContext', 'BasicContext', 'ExtendedContext'}
+DEC_NAMES = DEC_GLOBAL | {'Context'}
+
+# the translator's fixed battery (deterministic: the generated table must not depend on the seed)
+BATTERY = [
+    "matches('aB', '\\p{Lu}\\p{IsGreek}?')", "replace('abc','[\\p{L}-[b]]','x')", "tokenize('a b','\\s')", "//b[1]",
+    "count(//b)", "xs:decimal('1.1') div 3", "format-number(12.5,'#.0')", "string(parse-xml('<r>t</r>'))", "map{'a':1}?a",
+    "array{1,2}(1)", "xs:date('2020-01-01') + xs:dayTimeDuration('P1D')", "compare('a','b')", "'a' instance of xs:string",
+    "1 instance of xs:integer+", "sort((3,1,2))", "analyze-string('ab','a')", "xs:NMTOKENS('a b')",
+    "json-to-xml('{\"a\":1}')", "format-integer(5,'w')", "string-join(('a','b'),'-')", "environment-variable('HOME')",
+    "xs:language('en')", "normalize-unicode('a')", "upper-case('a')", "5 castable as xs:byte", "(1,2)[. gt 1]",
+    "for $x in (1,2) return $x * 2", "let $f := function($a){$a+1} return $f(1)",
+    "fold-left((1,2),0,function($a,$b){$a+$b})", "xs:QName('xs:int')", "matches('x','\\i\\c*')", "matches('٣','\\d')",
+    "round-half-to-even(2.5)", "distinct-values(('a','b','a'))", "index-of(('a','b'),'b')", "deep-equal((1,'a'),(1,'a'))",
+    "contains-token('a b','b')", "collation-key('a')", "current-date() gt xs:date('2000-01-01')", "1 div 0",
+]
+
+
+def _qualname_map(tree):
+    """ast node -> qualified name of the innermost enclosing function/class ('<module>' at top level)"""
+    import ast
+    out = {}
+
+    def walk(node, qn):
+        for ch in ast.iter_child_nodes(node):
+            q = qn
+            if isinstance(ch, (ast.FunctionDef, ast.AsyncFunctionDef, ast.ClassDef)):
+                q = ch.name if qn == '<module>' else qn + '.' + ch.name
+            out[ch] = q if not isinstance(ch, (ast.FunctionDef, ast.AsyncFunctionDef, ast.ClassDef)) else qn
+            walk(ch, q)
+    walk(tree, '<module>')
+    return out
+
+
+def scan_sources(pkg_root: Path) -> dict:
+    """static facts over the package AST (every .py file under elementpath/)"""
+    import ast
+    facts = {k: set() for k in ('setlocale_set', 'setlocale_query', 'lock_bare', 'lock_with', 'decimal_ctx',
+                                'decimal_private_ctx',
+                                'environ_write', 'environ_read', 'get_locale_category_calls')}
+    static_writers = []
+    nfiles = 0
+    for path in sorted(pkg_root.rglob('*.py')):
+        nfiles += 1
+        mod = '.'.join(path.relative_to(pkg_root.parent).with_suffix('').parts)
+        tree = ast.parse(path.read_text())
+        qn = _qualname_map(tree)
+        parents = {}
+        for n in ast.walk(tree):
+            for ch in ast.iter_child_nodes(n):
+                parents[ch] = n
+        glob = {}
+
+        def mut_kind(v):
+            if isinstance(v, (ast.Dict, ast.List, ast.Set, ast.DictComp, ast.ListComp, ast.SetComp)):
+                return type(v).__name__
+            if isinstance(v, ast.Call):
+                f = v.func
+                n = f.id if isinstance(f, ast.Name) else f.attr if isinstance(f, ast.Attribute) else None
+                if n in MUT_CALLS:
+                    return 'call:' + n
+            return None
+
+        def targets(node):
+            if isinstance(node, ast.Assign):
+                return [t for t in node.targets if isinstance(t, ast.Name)], node.value
+            if isinstance(node, ast.AnnAssign) and node.value is not None and isinstance(node.target, ast.Name):
+                return [node.target], node.value
+            return [], None
+        for node in tree.body:
+            tg, val = targets(node)
+            for t in tg:
+                if mut_kind(val):
+                    glob[t.id] = mut_kind(val)
+            if isinstance(node, ast.ClassDef):
+                for cn in node.body:
+                    tg, val = targets(cn)
+                    for t in tg:
+                        if mut_kind(val):
+                            glob[node.name + '.' + t.id] = mut_kind(val)
+        attr_names = {g.split('.', 1)[1] for g in glob if '.' in g}
+        writers = {}
+        for n in ast.walk(tree):
+            where = qn.get(n, '<module>')
+            if isinstance(n, ast.Global):
+                for nm in n.names:
+                    glob.setdefault(nm, 'rebound')
+                    writers.setdefault(nm, set()).add(where)
+            if where == '<module>':
+                pass
+            # NAME[..] = / del NAME[..] / NAME += .. / X.attr[..] = ..   inside functions
+            if isinstance(n, (ast.Assign, ast.AugAssign, ast.Delete)) and where != '<module>':
+                ts = n.targets if isinstance(n, (ast.Assign, ast.Delete)) else [n.target]
+                for t in ts:
+                    base = t.value if isinstance(t, ast.Subscript) else t if isinstance(n, ast.AugAssign) else None
+                    if isinstance(base, ast.Name) and base.id in glob:
+                        writers.setdefault(base.id, set()).add(where)
+                    if isinstance(base, ast.Attribute) and base.attr in attr_names and \
+                            isinstance(base.value, ast.Name) and base.value.id != 'self':
+                        writers.setdefault('*.' + base.attr, set()).add(where)
+            if isinstance(n, ast.Call) and isinstance(n.func, ast.Attribute) and where != '<module>':
+                f = n.func
+                if f.attr in MUT_METHODS:
+                    if isinstance(f.value, ast.Name) and f.value.id in glob:
+                        writers.setdefault(f.value.id, set()).add(where)
+                    if isinstance(f.value, ast.Attribute) and f.value.attr in attr_names and \
+                            isinstance(f.value.value, ast.Name) and f.value.value.id != 'self':
+                        writers.setdefault('*.' + f.value.attr, set()).add(where)
+            # --- named call sites
+            if isinstance(n, ast.Call):
+                f = n.func
+                name = f.attr if isinstance(f, ast.Attribute) else f.id if isinstance(f, ast.Name) else None
+                if name in ('setlocale', '_setlocale'):
+                    is_set = len(n.args) >= 2 and not (isinstance(n.args[1], ast.Constant) and n.args[1].value is None)
+                    is_set = is_set or any(k.arg == 'locale' for k in n.keywords)
+                    facts['setlocale_set' if is_set else 'setlocale_query'].add((mod, where))
+                if name in ('getlocale', 'getdefaultlocale', 'getpreferredencoding'):
+                    facts['setlocale_query'].add((mod, where))
+                if name == 'get_locale_category':
+                    facts['get_locale_category_calls'].add((mod, where))
+                if name in ('putenv', 'unsetenv'):
+                    facts['environ_write'].add((mod, where))
+            if isinstance(n, ast.Attribute) and n.attr in ('acquire', 'release') and \
+                    isinstance(n.value, ast.Name) and n.value.id == '_locale_collate_lock':
+                facts['lock_bare'].add((mod, where))
+            if isinstance(n, ast.With):
+                for it in n.items:
+                    if isinstance(it.context_expr, ast.Name) and it.context_expr.id == '_locale_collate_lock':
+                        facts['lock_with'].add((mod, where))
+            ident = n.id if isinstance(n, ast.Name) else n.attr if isinstance(n, ast.Attribute) else None
+            if ident in DEC_NAMES:
+                facts['decimal_ctx' if ident in DEC_GLOBAL else 'decimal_private_ctx'].add((mod, where))
+            if isinstance(n, ast.ImportFrom) and n.module == 'decimal':
+                for al in n.names:
+                    if al.name in DEC_GLOBAL:
+                        facts['decimal_ctx'].add((mod, '<import>'))
+            if isinstance(n, ast.Attribute) and n.attr == 'environ':
+                par = parents.get(n)
+                write = False
+                if isinstance(par, ast.Subscript) and isinstance(par.ctx, (ast.Store, ast.Del)):
+                    write = True
+                if isinstance(par, ast.Attribute) and par.attr in MUT_METHODS | {'__setitem__', '__delitem__'}:
+                    write = True
+                facts['environ_write' if write else 'environ_read'].add((mod, where))
+        for g in sorted(writers):
+            static_writers.append((mod, g, sorted(writers[g])))
+    return {'facts': {k: sorted(v) for k, v in facts.items()}, 'static_writers': static_writers, 'files': nfiles}
+
+
+def _fingerprint_globals(mods):
+    """(module, name) -> fingerprint of every module-level / class-level mutable container and memo cache"""
+    import collections
+    mut = (dict, list, set, collections.deque, bytearray)
+
+    def fp(v):
+        if hasattr(v, 'cache_info'):
+            return ('lru', v.cache_info().currsize)
+        try:
+            if isinstance(v, dict):
+                body = repr(sorted(map(repr, v.keys()))) + repr(sorted(repr(x)[:80] for x in v.values()))
+            elif isinstance(v, set):
+                body = repr(sorted(map(repr, v)))
+            else:
+                body = repr(v)[:100000]
+        except Exception as e:
+            body = '?' + type(e).__name__
+        return (type(v).__name__, len(v), hashlib.blake2b(body.encode(), digest_size=6).hexdigest())
+
+    def dunder(n):
+        return n.startswith('__') and n.endswith('__')
+    out = {}
+    for m in mods:
+        for n, v in list(vars(m).items()):
+            if dunder(n):
+                continue
+            if isinstance(v, mut) or (callable(v) and hasattr(v, 'cache_info') and
+                                      getattr(v, '__module__', None) == m.__name__):
+                out[(m.__name__, n)] = fp(v)
+            if isinstance(v, type) and v.__module__ == m.__name__:
+                for a, av in list(vars(v).items()):
+                    if dunder(a):
+                        continue
+                    if isinstance(av, mut) or (callable(av) and hasattr(av, 'cache_info')):
+                        out[(m.__name__, v.__name__ + '.' + a)] = fp(av)
+    return out
+
+
+def dynamic_globals() -> dict:
+    """run the fixed battery twice (and once in reverse order) with all four parsers; report which
+    module-level objects changed during the first run, during the repetition, and whether every
+    expression gave the same canonical result each time"""
+    import importlib
+    import pkgutil
+    import elementpath
+    from elementpath import select, XPath1Parser, XPath2Parser
+    from elementpath.xpath30 import XPath30Parser
+    from elementpath.xpath31 import XPath31Parser
+    mods = [elementpath]
+    for m in pkgutil.walk_packages(elementpath.__path__, 'elementpath.'):
+        try:
+            mods.append(importlib.import_module(m.name))
+        except Exception:
+            pass
+    parsers = (XPath1Parser, XPath2Parser, XPath30Parser, XPath31Parser)
+
+    def canon(v):
+        if isinstance(v, float):
+            return v.hex()
+        if isinstance(v, list):
+            return [canon(x) for x in v]
+        r = repr(v)
+        import re as _re
+        return _re.sub(r' at 0x[0-9a-f]+', '', r)
+
+    def run_battery(order):
+        res = {}
+        for P in parsers:
+            for e in order:
+                if 'current-date' in e:
+                    continue
+                try:
+                    res[(P.__name__, e)] = canon(select(root(), e, parser=P))
+                except BaseException as ex:
+                    res[(P.__name__, e)] = canon_exc(ex)
+        return res
+    s0 = _fingerprint_globals(mods)
+    r1 = run_battery(BATTERY)
+    s1 = _fingerprint_globals(mods)
+    r2 = run_battery(BATTERY)
+    r3 = run_battery(BATTERY[::-1])
+    s2 = _fingerprint_globals(mods)
+    first = sorted(k for k in set(s0) | set(s1) if s0.get(k) != s1.get(k))
+    second = sorted(k for k in set(s1) | set(s2) if s1.get(k) != s2.get(k))
+    differ = sorted(f'{k[0]}: {k[1]}' for k in r1 if r1[k] != r2.get(k) or r1[k] != r3.get(k))
+    return {'count': len(s0), 'written_first_run': first, 'written_second_run': second, 'results_differ': differ,
+            'battery': len(BATTERY) * len(parsers)}
+
+
+def _lean_str(x: str) -> str:
+    return '"' + x.replace('\\', '\\\\').replace('"', '\\"') + '"'
+
+
+def _lean_pairs(l) -> str:
+    return '[' + ', '.join(f'({_lean_str(a)}, {_lean_str(b)})' for a, b in l) + ']'
+
+
 def translate(run: Run) -> dict:
     import inspect
+    from harness.common import REPO
     from elementpath import XPathContext, collations
     from elementpath.xpath30 import XPath30Parser
     from elementpath.xpath31 import XPath31Parser
@@ -1212,10 +1639,13 @@ def translate(run: Run) -> dict:
     defuse = bool(XPath30Parser().defuse_xml) and bool(XPath31Parser().defuse_xml)
     lk = getattr(collations, '_locale_collate_lock', None)
     reentrant = type(lk) is type(threading.RLock())
+    scan = scan_sources(Path(REPO) / 'elementpath')
+    dyn = dynamic_globals()
+    f = scan['facts']
 
     def b(x):
         return 'true' if x else 'false'
-    text = '\n'.join([
+    lines = [
         '/- GENERATED by harness/c19.py from the live /repo -- do not edit -/',
         'namespace EPV.Gen.C19',
         '/-- default of `XPathContext.__init__(allow_environment=...)` -/',
@@ -1224,13 +1654,50 @@ def translate(run: Run) -> dict:
         f'def defuseXmlDefault : Bool := {b(defuse)}',
         '/-- `type(elementpath.collations._locale_collate_lock)` is a reentrant lock -/',
         f'def lockReentrant : Bool := {b(reentrant)}',
-        'end EPV.Gen.C19', ''])
+        '',
+        f'/-! static facts: AST scan of the {scan["files"]} source files of the package; sites are',
+        '(module, qualified name of the enclosing function) -/',
+        '/-- calls `setlocale(category, <something other than the literal None>)` -/',
+        f'def setlocaleSetSites : List (String × String) := {_lean_pairs(f["setlocale_set"])}',
+        '/-- calls that only read the locale (`setlocale(c)`, `setlocale(c, None)`, `getlocale`, ..) -/',
+        f'def setlocaleQuerySites : List (String × String) := {_lean_pairs(f["setlocale_query"])}',
+        '/-- calls of `get_locale_category` (a helper that switches the locale without the lock) -/',
+        f'def getLocaleCategoryCallSites : List (String × String) := {_lean_pairs(f["get_locale_category_calls"])}',
+        '/-- `_locale_collate_lock.acquire` / `.release` written out (not through `with`) -/',
+        f'def lockBareSites : List (String × String) := {_lean_pairs(f["lock_bare"])}',
+        '/-- `with _locale_collate_lock:` -/',
+        f'def lockWithSites : List (String × String) := {_lean_pairs(f["lock_with"])}',
+        '/-- any mention of getcontext / setcontext / localcontext / DefaultContext / BasicContext / ExtendedContext -/',
+        f'def decimalGlobalContextSites : List (String × String) := {_lean_pairs(f["decimal_ctx"])}',
+        '/-- constructions of a private `decimal.Context(..)` object (does not touch the thread\'s context) -/',
+        f'def decimalPrivateContextSites : List (String × String) := {_lean_pairs(f["decimal_private_ctx"])}',
+        '/-- stores into / deletions from / mutating method calls on `os.environ`, `putenv`, `unsetenv` -/',
+        f'def environWriteSites : List (String × String) := {_lean_pairs(f["environ_write"])}',
+        '/-- other mentions of `os.environ` -/',
+        f'def environReadSites : List (String × String) := {_lean_pairs(f["environ_read"])}',
+        '/-- module-level / class-level mutable containers (dict, list, set, ..; `*.attr` = a class attribute',
+        'reached through an object other than `self`) that some function body mutates or rebinds: (module, name) -/',
+        f'def staticallyWrittenGlobals : List (String × String) := '
+        f'{_lean_pairs([(m, g) for m, g, _ in scan["static_writers"]])}',
+        '',
+        f'/-! dynamic facts: {dyn["count"]} module-level / class-level mutable containers and memo caches of the',
+        f'imported package, fingerprinted around the translator\'s fixed battery ({dyn["battery"]} evaluations) -/',
+        f'def mutableGlobalsCount : Nat := {dyn["count"]}',
+        '/-- those that changed while the battery ran for the first time -/',
+        f'def writtenAfterImport : List (String × String) := {_lean_pairs(dyn["written_first_run"])}',
+        '/-- those that changed while it ran again (same order, then reverse order) -/',
+        f'def writtenByRepetition : List (String × String) := {_lean_pairs(dyn["written_second_run"])}',
+        '/-- expressions whose canonical result differed between the three runs -/',
+        f'def batteryResultsThatDiffer : List String := [{", ".join(_lean_str(x) for x in dyn["results_differ"])}]',
+        'end EPV.Gen.C19', '']
+    text = '\n'.join(lines)
     gen = LEAN / 'EPV' / 'Gen' / 'C19Defaults.lean'
     gen.parent.mkdir(exist_ok=True)
     if not gen.exists() or gen.read_text() != text:
         gen.write_text(text)
     return {'allow_environment_default': bool(allow), 'defuse_xml_default': defuse,
-            'lock_type': type(lk).__name__, 'lock_reentrant': reentrant}
+            'lock_type': type(lk).__name__, 'lock_reentrant': reentrant, 'static': f,
+            'static_writers': scan['static_writers'], 'dynamic': dyn}
 
 
 def replay(run: Run, path: str) -> int:
@@ -1243,7 +1710,8 @@ def replay(run: Run, path: str) -> int:
         evs = [Ev.from_json(j) for j in case['history']]
         compare_histories(run, [(world, evs)])
     elif isinstance(case, dict) and 'programs' in case:
-        compare_threads(run, [(World.from_json(case['world']), [[tuple(j) for j in p] for p in case['programs']])])
+        compare_threads(run, [(World.from_json(case['world']),
+                               [[Ev.from_json(j) for j in p] for p in case['programs']])])
     else:
         print('replay: unsupported case shape; running the full check', file=sys.stderr)
         return body(run)
@@ -1264,7 +1732,6 @@ def arm_deadline(run: Run):
 
 
 def body(run: Run) -> int:
-    arm_deadline(run)
     if getattr(run, 'replay', None):
         run.prove(['EPV.Props.C19', 'EPV.Props.C19Defaults'], ['EPV.Spec.GlobalsSpec'])
         return replay(run, run.replay)
@@ -1296,6 +1763,7 @@ def body(run: Run) -> int:
         'environment-variable on random environments, parse-xml(-fragment) on structured prologs. '
         'distinct = distinct (world, history) / thread / gate cases')
     run.prove(['EPV.Props.C19', 'EPV.Props.C19Defaults'], ['EPV.Spec.GlobalsSpec'])
+    arm_deadline(run)       # after the build: waiting for the shared lake lock is not the check's time
     try:
         correspond_histories(run)
         run.log('histories done', run.stats.evaluations)
